@@ -220,17 +220,20 @@ def convert_archive(archive):
     del raw_syms
     syms = sorted(syms, reverse=True)
     # ok, syms are correct.  now we get the rest.
-    # we shift the readds into a separate list so that we don't reinspect
-    # them on later runs; this slightly reduces the working set.
-    additions = []
-    for x in syms:
-        affected = t.child_nodes(x.location)
-        if not affected:
-            continue
-        t.difference_update(affected)
-        additions.extend(affected.change_offset(x.location, x.resolved_target))
-
-    t.update(additions)
+    # moved nodes are reinspected: their new location can sit below another
+    # symlink (a -> b -> c), so loop until nothing moves anymore.
+    # The pass count is bounded like the kernel's symlink depth to survive symlink loops.
+    for _ in range(40):
+        moved = False
+        for x in syms:
+            affected = t.child_nodes(x.location)
+            if not affected:
+                continue
+            t.difference_update(affected)
+            t.update(affected.change_offset(x.location, x.resolved_target))
+            moved = True
+        if not moved:
+            break
     t.add_missing_directories()
 
     # finally... an insane sort.
